@@ -79,7 +79,10 @@ Fixpoint seq_take (order : list Z) (cls : Z) (l : bytes) : bytes :=
 
 (* ------------------------------------------------------------------ FindDirectory *)
 Definition find_directory (r : reader) (size : Z) : result Z :=
-  endb <- r (fd_pos size) (directoryEndLen + directory64LocLen) ;;
+  let pos := fd_pos size in
+  (* an archive shorter than end record + locator is read whole into the END of the 42-byte buffer *)
+  endb <- (if fd_short pos size then b <- r 0 (directoryEndLen + directory64LocLen + pos) ;; Ok (zeros (- pos) ++ b)
+           else r pos (directoryEndLen + directory64LocLen)) ;;
   let ord := firstn 2 fd_read_order in           (* the third Read of the function uses its own buffer *)
   let loc := seq_take ord 1 endb in
   let endr := seq_take ord 2 endb in
@@ -99,7 +102,7 @@ Record cdent := mkEnt {
   e_iattrs : Z; e_eattrs : Z; e_offset : Z; e_raw : bytes }.
 
 Record z64st := mkZ { z_usize : Z; z_csize : Z; z_offset : Z; z_need_c : bool; z_need_o : bool }.
-(* the loop over extra-field records; the ZIP64 record is read at FIXED positions (usize 0, csize 8, offset 16) *)
+(* the loop over extra-field records and the two ways the ZIP64 record is decoded *)
 Fixpoint z64_scan (fuel : nat) (extra : bytes) (need_u : bool) (st : z64st) : z64st :=
   match fuel with
   | O => st
@@ -110,6 +113,19 @@ Fixpoint z64_scan (fuel : nat) (extra : bytes) (need_u : bool) (st : z64st) : z6
       if rwd_rec_overrun size (zlen extra) then st else
       if rwd_is_zip64_tag tag then
         let e := zslice 4 (4 + size) extra in
+        let needed := (if need_u then 1 else 0) + (if z_need_c st then 1 else 0) + (if z_need_o st then 1 else 0) in
+        if rwd_exact_rec size needed then
+          (* exactly the saturated fields, in order (optionally followed by the disk number) *)
+          let u := if rwd_seq_u need_u then le_dec (zslice 0 8 e) else z_usize st in
+          let e1 := if rwd_seq_u need_u then zdrop 8 e else e in
+          let c := if rwd_seq_c (z_need_c st) then le_dec (zslice 0 8 e1) else z_csize st in
+          let nc := if rwd_seq_c (z_need_c st) then rwd_need_c_after else z_need_c st in
+          let e2 := if rwd_seq_c (z_need_c st) then zdrop 8 e1 else e1 in
+          let o := if rwd_seq_o (z_need_o st) then le_dec (zslice 0 8 e2) else z_offset st in
+          let no := if rwd_seq_o (z_need_o st) then rwd_need_o_after else z_need_o st in
+          mkZ u c o nc no
+        else
+        (* otherwise FIXED positions (usize 0, csize 8, offset 16) *)
         let u := if rwd_take_u need_u size then le_dec (zslice 0 8 e) else z_usize st in
         let c := if rwd_take_c (z_need_c st) size then le_dec (zslice 8 16 e) else z_csize st in
         let nc := if rwd_take_c (z_need_c st) size then rwd_need_c_after else z_need_c st in
@@ -191,6 +207,7 @@ Definition read_lfh (m : mode) (r : reader) (pos : Z) (f : cdent) : result (lfhi
   z <- rd_full m r (snd y) (off + fileHeaderLen + nlen) elen ;;
   Ok (mkLfh hb (fst y) (fst z), snd z).
 
+Definition adv_fail (m : mode) (pos q : Z) : Z := match m with Random => pos | Stream => q end.
 (* result: descriptor bytes, the CRC relic keeps afterwards, new cursor *)
 Definition read_dd (m : mode) (r : reader) (pos : Z) (f : cdent) (l : lfhinfo) : result (bytes * Z * Z) :=
   if dd_absent (Z.land (l_flags l) dd_flag_mask) then Ok ([], e_crc f, pos) else
@@ -199,13 +216,22 @@ Definition read_dd (m : mode) (r : reader) (pos : Z) (f : cdent) (l : lfhinfo) :
   x <- rd_at m r pos p dataDescriptorLen ;;
   let b16 := fst x in
   if dd_sig_bad (fld dd_off_Signature dd_w_Signature b16) then Err E_DDSIG else
-  if dd_is_64 (e_usize f) (e_csize f) (fld dd_off_UncompressedSize dd_w_UncompressedSize b16)
-              (fld dd_off_CompressedSize dd_w_CompressedSize b16) then
-    y <- rd_at m r (snd x) (p + dataDescriptorLen) (dataDescriptor64Len - dataDescriptorLen) ;;
-    let b24 := b16 ++ fst y in
-    if dd_64_invalid (e_usize f) (e_csize f) (fld dd64_off_UncompressedSize dd64_w_UncompressedSize b24)
-                     (fld dd64_off_CompressedSize dd64_w_CompressedSize b24) then Err E_DDINV else
-    Ok (b24, fld dd64_off_CRC32 dd64_w_CRC32 b24, snd y)
+  let is64 := dd_is_64 (e_usize f) (e_csize f) (fld dd_off_UncompressedSize dd_w_UncompressedSize b16)
+                       (fld dd_off_CompressedSize dd_w_CompressedSize b16) in
+  (* usize = 0: the first 16 bytes of a 64-bit descriptor read like a 32-bit one; decided by version-needed, with fallback *)
+  let amb := dd_ambiguous is64 (e_usize f) (fld lfh_off_ReaderVersion lfh_w_ReaderVersion (l_hdr l)) in
+  if dd_try_64 is64 amb then
+    let y := rd_at m r (snd x) (p + dataDescriptorLen) (dataDescriptor64Len - dataDescriptorLen) in
+    let read_ok := is_ok y in
+    let b8 := match y with Ok v => fst v | _ => zeros (dataDescriptor64Len - dataDescriptorLen) end in
+    let pos2 := match y with Ok v => snd v | _ => adv_fail m (snd x) (p + dataDescriptor64Len) end in
+    let b24 := b16 ++ b8 in
+    if dd_64_valid read_ok (e_usize f) (e_csize f) (fld dd64_off_UncompressedSize dd64_w_UncompressedSize b24)
+                   (fld dd64_off_CompressedSize dd64_w_CompressedSize b24) then
+      Ok (b24, fld dd64_off_CRC32 dd64_w_CRC32 b24, pos2)
+    else if dd_64_read_error amb (negb read_ok) then (match y with Err e => Err e | Panic e => Panic e | Ok _ => Err E_READ end)
+    else if dd_64_invalid amb then Err E_DDINV
+    else Ok (b16, fld dd_off_CRC32 dd_w_CRC32 b16, pos2)          (* fall back to 32-bit; a stream has moved on *)
   else Ok (b16, fld dd_off_CRC32 dd_w_CRC32 b16, snd x).
 
 Record sized := mkSized { s_total : Z; s_ddlen : Z; s_crc : Z; s_lfhlen : Z }.
@@ -283,7 +309,12 @@ Definition write_directory (files : list cdent) (dirloc : Z) (force separate weo
   else if wd_weod_nil weod_nil then Ok ([], [])
   else Ok (cd_bytes files, wd_tail files dirloc force).
 
-(* GetOriginalDirectory: what the code after the WriteDirectory call would produce is modelled too *)
+(* the end-of-directory records GetOriginalDirectory serialises: ZIP64 record and locator only when they were present *)
+Definition god_records (end64 loc64 endr : bytes) : bytes :=
+  concat (map (pick [(3, if god_emit_end64 (fld e64_off_Signature e64_w_Signature end64) then end64 else []);
+                     (1, if god_emit_loc64 (fld l64_off_Signature l64_w_Signature loc64) then loc64 else []);
+                     (2, endr)]) god_write_order).
+(* GetOriginalDirectory *)
 Definition get_original (r : reader) (d : directory) (trim : bool) : result (bytes * bytes) :=
   if god_is_new (fld eocd_off_Signature eocd_w_Signature (d_end d)) then Err E_NEW else
   w <- write_directory (d_files d) (d_dirloc d) false true (list_eqb Z.eqb god_wd_weod_arg [0]) ;;
@@ -293,19 +324,19 @@ Definition get_original (r : reader) (d : directory) (trim : bool) : result (byt
     if (delta <? 0) || (delta >? uint32Max) then Err E_NOEND else
     let e64sig := fld e64_off_Signature e64_w_Signature (d_end64 d) in
     let l64sig := fld l64_off_Signature l64_w_Signature (d_loc64 d) in
-    let end64 := if negb (e64sig =? 0)
+    let end64 := if god_emit_end64 e64sig
                  then ztake e64_off_CDOffset (d_end64 d) ++ le_enc 8 (fld e64_off_CDOffset e64_w_CDOffset (d_end64 d) - delta)
                  else d_end64 d in
-    let loc64 := if negb (l64sig =? 0)
+    let loc64 := if god_emit_loc64 l64sig
                  then ztake l64_off_Offset (d_loc64 d) ++ le_enc 8 (fld l64_off_Offset l64_w_Offset (d_loc64 d) - delta)
                       ++ zdrop (l64_off_Offset + l64_w_Offset) (d_loc64 d)
                  else d_loc64 d in
     let eoff := fld eocd_off_CDOffset eocd_w_CDOffset (d_end d) in
-    let endr := if negb (eoff =? uint32Max) || (l64sig =? 0)
+    let endr := if god_trim_end eoff l64sig
                 then ztake eocd_off_CDOffset (d_end d) ++ le_enc 4 (eoff - delta) ++ zdrop (eocd_off_CDOffset + eocd_w_CDOffset) (d_end d)
                 else d_end d in
-    Ok (fst w, concat (map (pick [(3, end64); (1, loc64); (2, endr)]) god_write_order))
-  else Ok (fst w, concat (map (pick [(3, d_end64 d); (1, d_loc64 d); (2, d_end d)]) god_write_order)).
+    Ok (fst w, god_records end64 loc64 endr)
+  else Ok (fst w, god_records (d_end64 d) (d_loc64 d) (d_end d)).
 
 (* ------------------------------------------------------------------ NewFile / AddFile *)
 (* contents are given already compressed (deflate and CRC-32 are library functions) *)
@@ -461,14 +492,14 @@ Definition plain_opts (zip64end : Z) : sopts := mkOpts [] [] zip64end 45 45 [] [
 (* cursor after a read ending at q *)
 Definition adv (m : mode) (pos q : Z) : Z := match m with Random => pos | Stream => q end.
 
-(* exactly when relic's inference reads a 24-byte descriptor as 24 bytes *)
+(* the 32-bit view of a 24-byte descriptor already shows that it is not a 16-byte one *)
 Definition dd24_ok (csize usize : Z) : bool :=
   (usize >=? 4294967295) || negb ((csize / 4294967296) mod 4294967296 =? usize mod 4294967296).
-Definition desc_ok (k : desc_kind) (csize usize : Z) : Prop :=
+Definition desc_ok (k : desc_kind) (reader csize usize : Z) : Prop :=
   match k with
   | DNone => True
-  | D16 => 0 <= usize < 4294967295 /\ csize < 4294967296
-  | D24 => 0 <= usize < 2 ^ 64 /\ csize < 2 ^ 63 /\ dd24_ok csize usize = true
+  | D16 => 0 <= usize < 4294967295 /\ csize < 4294967296 /\ (usize = 0 -> reader < 45)
+  | D24 => 0 <= usize < 2 ^ 64 /\ csize < 2 ^ 63 /\ (dd24_ok csize usize = true \/ (usize = 0 /\ 45 <= reader))
   | D12 | D20 => False
   end.
 
@@ -477,7 +508,7 @@ Definition sized_of (m : smember) : sized :=
 
 Definition local_ok (m : smember) : Prop :=
   zlen (m_name m) < 65536 /\ zlen (sp_lextra m) < 65536 /\ Z.land (m_flags m) 8 = 0 /\
-  0 <= m_crc m < 4294967296 /\ desc_ok (m_desc m) (sp_csize m) (m_usize m).
+  0 <= m_crc m < 4294967296 /\ 0 <= m_reader m < 65536 /\ desc_ok (m_desc m) (m_reader m) (sp_csize m) (m_usize m).
 
 (* local entries laid out back to back from offset o, and directory entries that describe them *)
 Definition ent_matches (m : smember) (off : Z) (f : cdent) : Prop :=
